@@ -431,3 +431,33 @@ func VC_C06_remock_after_reset() {
 	}
 	verifReached("C06.remock")
 }
+
+// VC_C06_typed_nil_instance: the struct type named by a typed nil pointer,
+// Struct((*T)(nil)), for an unexported or exported method by name: the named method is
+// mocked for every instance like with a non-nil instance.
+func VC_C06_typed_nil_instance() {
+	vC06Setup()
+	b := Create()
+	k := verifChoice("method", 4)
+	panicked := false
+	func() {
+		defer func() {
+			if r := recover(); r != nil {
+				panicked = true
+			}
+		}()
+		b.Struct((*vT06)(nil)).ExportMethod(vC06Names[k]).Apply(vC06Cbs[k])
+	}()
+	verifAssert(!panicked, "C06.typed-nil.accepted")
+	for j := 0; j < 5; j++ {
+		verifAssert(vDiverted(vC06Method(j)) == (j == k && !panicked), "C06.typed-nil.exactly-the-named-method-mocked")
+	}
+	if !panicked {
+		vC06Calls(k, "C06.typed-nil")
+	}
+	b.Reset()
+	for j := 0; j < 5; j++ {
+		verifAssert(!vDiverted(vC06Method(j)), "C06.typed-nil.reset-restores")
+	}
+	verifReached("C06.typed-nil")
+}
